@@ -131,8 +131,9 @@ deriving Repr, DecidableEq, Inhabited
 namespace Chan
 
 def new (bufferSize maxBufferSize : Nat) : Chan :=
+  -- `Channel::new` clamps the ceiling: `max_buffer_size.max(buffer_size)`
   { front := Buffer.withCapacity bufferSize, back := Buffer.withCapacity bufferSize,
-    init := bufferSize, max := maxBufferSize }
+    init := bufferSize, max := Nat.max maxBufferSize bufferSize }
 
 /-- `grow_size` -/
 def growSize (c : Chan) (cur : Nat) : Option Nat :=
@@ -244,12 +245,20 @@ def writeMessage (c : Chan) (payload : Bytes) : Chan × Except Err Unit :=
   | (c1, .ok ()) => ({ c1 with inW := true }, .ok ())
   | (c1, .error e) => (c1, .error e)
 
-/-- the tail of `try_read_delimited_message` (no complete frame available) -/
-def tryReadTail (c : Chan) : Chan × Except Err (Option Bytes) :=
+/-- fix F10: before growing or giving up, reclaim the bytes of already-returned
+    messages that still sit in front of the pending data -/
+def reclaimIfFull (c : Chan) : Chan :=
+  if c.front.availSpace = 0 then { c with front := c.front.shift } else c
+
+/-- the tail of `try_read_delimited_message` after the reclaiming shift -/
+def tryReadTailCore (c : Chan) : Chan × Except Err (Option Bytes) :=
   if c.front.availSpace = 0 then
     if c.front.cap ≥ c.max then (c, .error .bufferFull)
     else ({ c with front := c.front.grow ((c.growSize c.front.cap).getD c.max) }, .ok none)
   else (c, .ok none)
+
+/-- the tail of `try_read_delimited_message` (no complete frame available) -/
+def tryReadTail (c : Chan) : Chan × Except Err (Option Bytes) := tryReadTailCore (reclaimIfFull c)
 
 /-- `try_read_delimited_message` -/
 def tryRead (decodes : Bytes → Bool) (c : Chan) : Chan × Except Err (Option Bytes) :=
@@ -263,7 +272,9 @@ def tryRead (decodes : Bytes → Bool) (c : Chan) : Chan × Except Err (Option B
       let payload := slice buffer delim messageLen ⟨Nat.le_of_not_lt hu, hl⟩
       if decodes payload then
         ({ c with front := c.front.consume messageLen }, .ok (some payload))
-      else (c, .error .invalid)
+      else
+        -- fix F9: the undecodable frame is dropped so the stream can re-sync
+        ({ c with front := c.front.consume messageLen }, .error .invalid)
     else tryReadTail c
   else tryReadTail c
 
@@ -378,13 +389,13 @@ def fairRound (decodes : Bytes → Bool) (s : Sys) : Sys × List Bytes × Err :=
   ({ s3 with r := r1 }, ms, e)
 
 /-- repeat fair rounds until three consecutive rounds neither deliver a
-    message nor move a byte (or the round budget is spent). -/
+    message nor move or consume a byte (or the round budget is spent). -/
 def drainLoop (decodes : Bytes → Bool) :
     Nat → Nat → Sys → List Bytes → Err → Sys × List Bytes × Err
   | 0, _, s, acc, e => (s, acc, e)
   | fuel + 1, quiet, s, acc, _ =>
     let (s1, ms, e1) := fairRound decodes s
-    if ms.isEmpty ∧ s1.pendingBytes = s.pendingBytes then
+    if ms.isEmpty ∧ s1.pendingBytes = s.pendingBytes ∧ s1.r.front.data.length = s.r.front.data.length then
       if quiet + 1 ≥ 3 then (s1, acc, e1) else drainLoop decodes fuel (quiet + 1) s1 acc e1
     else drainLoop decodes fuel 0 s1 (acc ++ ms) e1
 
